@@ -1,9 +1,18 @@
 use super::*;
 use crate::{base::SentinelRule, logging, utils};
 use crate::{Error, Result};
+#[cfg(not(sentinel_verif))]
 use lazy_static::lazy_static;
+#[cfg(sentinel_verif)]
+use sentinel_verif_rt::lazy_static;
+#[cfg(not(sentinel_verif))]
 use std::collections::{HashMap, HashSet};
+#[cfg(sentinel_verif)]
+use sentinel_verif_rt::collections::{HashMap, HashSet};
+#[cfg(not(sentinel_verif))]
 use std::sync::{Arc, Mutex, RwLock};
+#[cfg(sentinel_verif)]
+use sentinel_verif_rt::sync::{Arc, Mutex, RwLock};
 
 pub type RuleMap = HashMap<String, HashSet<Arc<Rule>>>;
 
